@@ -46,7 +46,7 @@ PROPS = {
         ],
     },
     "C04": {
-        "theorems": ["SV.Props.C04.source_sender_limit_test_is_the_models", "SV.Props.C04.lists_equal_reference_after_any_history", "SV.Props.C04.hash_index_equals_reference_after_any_history", "SV.Props.C04.insert_is_ordered_insert", "SV.Props.C04.lists_sorted_add", "SV.Props.C04.lists_sorted_remove", "SV.Props.C04.sorted_has_no_duplicates", "SV.Props.C04.add_semantics", "SV.Props.C04.add_leaves_other_senders", "SV.Props.C04.remove_semantics", "SV.Props.C04.lookups_agree", "SV.Props.C04.trim_partial", "SV.Props.C04.trim_incomplete_F3"],
+        "theorems": ["SV.Props.C04.source_sender_limit_test_is_the_models", "SV.Props.C04.lists_equal_reference_after_any_history", "SV.Props.C04.hash_index_equals_reference_after_any_history", "SV.Props.C04.insert_is_ordered_insert", "SV.Props.C04.lists_sorted_add", "SV.Props.C04.lists_sorted_remove", "SV.Props.C04.sorted_has_no_duplicates", "SV.Props.C04.add_semantics", "SV.Props.C04.add_leaves_other_senders", "SV.Props.C04.remove_semantics", "SV.Props.C04.lookups_agree", "SV.Props.C04.trim_partial", "SV.Props.C04.trim_incomplete_F3", "SV.Props.C04.source_insertion_walk_is_the_models", "SV.Props.C04.source_lower_nonce_removal_is_the_models"],
         "modules": ["SV.Props.C04"],
         "runs": [{"component": "txcache", "thorough_seeds": 3, "compare_kinds": ["add", "rm", "clear"], "history_filter": "evict=0"}],
         "rule": "random add/rm/clear/sel histories over a small transaction alphabet (hash determines content) under boundary-biased configurations, plus directed eviction storms; distinct = distinct (operation kind, canonical output incl. full API dump) pairs observed on the implementation; the model/implementation diff is restricted per property (C01-C03: selections from the observed lists; C04-C06: add/rm/clear of the histories with eviction disabled - the pool-wide clauses of C05/C06 are decided on the eviction histories by the Go oracles, whose verdict does not depend on WHICH transactions eviction takes; C07: add/rm/clear of all histories)",
@@ -76,7 +76,7 @@ PROPS = {
         ],
     },
     "C07": {
-        "theorems": ["SV.Props.C07.source_threshold_tests_are_the_models", "SV.Props.C07.source_comparator_is_the_models", "SV.Props.C07.takes_least_valuable", "SV.Props.C07.batch_size", "SV.Props.C07.stops_when_within", "SV.Props.C07.noop_within_thresholds", "SV.Props.C07.loses_nonce_suffix", "SV.Props.C07.disappear_from_every_view", "SV.Props.C07.victim_independent_of_order", "SV.Props.C07.every_reachable_eviction_cuts_nonce_suffixes", "SV.Props.C07.every_reachable_eviction_noop_within", "SV.Props.C07.every_reachable_evicted_disappear_everywhere", "SV.Props.C07.every_reachable_survivor_stays_hashed"],
+        "theorems": ["SV.Props.C07.source_threshold_tests_are_the_models", "SV.Props.C07.source_comparator_is_the_models", "SV.Props.C07.takes_least_valuable", "SV.Props.C07.batch_size", "SV.Props.C07.stops_when_within", "SV.Props.C07.noop_within_thresholds", "SV.Props.C07.loses_nonce_suffix", "SV.Props.C07.disappear_from_every_view", "SV.Props.C07.victim_independent_of_order", "SV.Props.C07.every_reachable_eviction_cuts_nonce_suffixes", "SV.Props.C07.every_reachable_eviction_noop_within", "SV.Props.C07.every_reachable_evicted_disappear_everywhere", "SV.Props.C07.every_reachable_survivor_stays_hashed", "SV.Props.C07.source_suffix_cut_is_the_models"],
         "modules": ["SV.Props.C07"],
         "runs": [{"component": "txcache", "thorough_seeds": 3, "compare_kinds": ["add", "rm", "clear"]}],
         "rule": "random add/rm/clear/sel histories over a small transaction alphabet (hash determines content) under boundary-biased configurations, plus directed eviction storms; distinct = distinct (operation kind, canonical output incl. full API dump) pairs observed on the implementation; the model/implementation diff is restricted per property (C01-C03: selections from the observed lists; C04-C06: add/rm/clear of the histories with eviction disabled - the pool-wide clauses of C05/C06 are decided on the eviction histories by the Go oracles, whose verdict does not depend on WHICH transactions eviction takes; C07: add/rm/clear of all histories)",
@@ -147,7 +147,7 @@ PROPS = {
         "assumptions": ['multiversx/concurrent-map v0.1.4 is modelled from its source (age-ordered view of the ring); keys are non-empty'],
     },
     "C18": {
-        "theorems": ["SV.Props.C18.source_expiry_test_is_the_models", "SV.Props.C18.present_at_every_query_until_span_elapsed", "SV.Props.C18.gone_after_a_sweep_past_the_span", "SV.Props.C18.upsert_never_shortens_life", "SV.Props.C18.cacher_serves_latest_put_until_expiry", "SV.Props.C18.brackets_sound_hasOrAdd", "SV.Props.C18.hasOrAdd_flags_decided_when_certain", "SV.Props.C18.verdict_sound_for_every_history", "SV.Props.C18.retained_until_span_elapsed", "SV.Props.C18.dropped_by_later_sweep", "SV.Props.C18.upsert_max_and_restart", "SV.Props.C18.add_replaces_and_restarts", "SV.Props.C18.hasOrAdd_flags", "SV.Props.C18.brackets_sound_add", "SV.Props.C18.brackets_sound_upsert", "SV.Props.C18.brackets_sound_sweep", "SV.Props.C18.verdict_sound"],
+        "theorems": ["SV.Props.C18.source_expiry_test_is_the_models", "SV.Props.C18.present_at_every_query_until_span_elapsed", "SV.Props.C18.gone_after_a_sweep_past_the_span", "SV.Props.C18.upsert_never_shortens_life", "SV.Props.C18.cacher_serves_latest_put_until_expiry", "SV.Props.C18.brackets_sound_hasOrAdd", "SV.Props.C18.hasOrAdd_flags_decided_when_certain", "SV.Props.C18.verdict_sound_for_every_history", "SV.Props.C18.retained_until_span_elapsed", "SV.Props.C18.dropped_by_later_sweep", "SV.Props.C18.upsert_max_and_restart", "SV.Props.C18.add_replaces_and_restarts", "SV.Props.C18.hasOrAdd_flags", "SV.Props.C18.brackets_sound_add", "SV.Props.C18.brackets_sound_upsert", "SV.Props.C18.brackets_sound_sweep", "SV.Props.C18.verdict_sound", "SV.Props.C18.source_upsert_span_is_the_models"],
         "modules": ["SV.Props.C18"],
         "runs": [{"component": "timecache", "thorough_seeds": 2}],
         "rule": 'histories of Add/AddWithSpan/Upsert/Put/HasOrAdd/Remove/Sweep/sleep on TimeCache, peerTimeCache and timeCacher with every call bracketed by monotonic clock readings fed to the model (two exact models bound the unknown reading: must/may); spans 40-300 ms (1 s for timeCacher); a liveness probe for the self-sweeper; distinct = distinct (operation kind, canonical output) pairs',
